@@ -28,12 +28,12 @@ module Ringasis = struct
   let ts = zn mul_threshold_simple and tk = zn mul_threshold_karatsuba
   let chunk = zn mul_simple_chunk_len and sq = zn sqr_max_len_simple
   let words n v = to_words w64 (nat_of_int n) v
-  let rec_same = add_signed_mul_same_len w64 ts tk
-  let rec_gen = add_signed_mul w64 ts tk chunk
-  (* work bound for running the word-level model inside the oracle *)
-  (* the extracted multipliers build their fuel-indexed closures eagerly (OCaml is strict): quadratic in
-     la + lb, so the word-level model is only run below 6000 words in total *)
-  let small la lb = la * lb <= 250000 && la + lb <= 6000
+  (* the word-level stack (Int/RingMulW.v): dispatch + Toom-3 with div_by_word / shr_in_place at word level;
+     num-modular's 2-by-1 division is instantiated by exact division as in the C02 oracle *)
+  let d21 = x2by1
+  (* work bound for running the word-level model inside the oracle (lists of words, unary lengths) *)
+  let small la lb = la * lb <= 1200000 && la + lb <= 9000
+  let small_pow la lb = la * lb <= 250000 && la + lb <= 6000
   let typed v = typed_of_value w64 v
   let nwords v = (Zar.numbits v + 63) / 64
   let own_of = function "vv" | "av" -> OVV | "vr" | "ar" -> OVR | "rv" -> ORV | _ -> ORR
@@ -46,28 +46,28 @@ module Ringasis = struct
     match op with
     | "uadd" -> Some (Ok (repr_value w64 (repr_add w64 o (typed x) (typed y))))
     | "usub" -> Some (uval (repr_sub w64 o (typed x) (typed y)))
-    | _ -> if small (nwords x) (nwords y) then Some (uval (repr_mul w64 ts tk chunk sq (typed x) (typed y))) else None
+    | _ -> if small (nwords x) (nwords y) then Some (uval (repr_mul_w w64 d21 ts tk chunk sq (typed x) (typed y))) else None
   let ibig_op (k : string) (form : string) s0 m0 s1 m1 : Zar.t result option =
     let o = own_of form in
     match k with
     | "add" -> Some (sval (ibig_add_asis w64 o s0 (typed m0) s1 (typed m1)))
     | "sub" -> Some (sval (ibig_sub_asis w64 o s0 (typed m0) s1 (typed m1)))
-    | _ -> if small (nwords m0) (nwords m1) then Some (sval (ibig_mul_asis w64 ts tk chunk sq s0 (typed m0) s1 (typed m1))) else None
+    | _ -> if small (nwords m0) (nwords m1) then Some (sval (ibig_mul_asis_w w64 d21 ts tk chunk sq s0 (typed m0) s1 (typed m1))) else None
   let sqr (x : Zar.t) : Zar.t result option =
-    if small (nwords x) (nwords x) then Some (uval (repr_sqr w64 ts tk sq (typed x))) else None
+    if small (nwords x) (nwords x) then Some (uval (repr_sqr_w w64 d21 ts tk sq (typed x))) else None
   let cubic s (m : Zar.t) : Zar.t result option =
-    if small (nwords m) (2 * nwords m) then Some (sval (ibig_cubic_asis w64 ts tk chunk sq s (typed m))) else None
+    if small (nwords m) (2 * nwords m) then Some (sval (ibig_cubic_asis_w w64 d21 ts tk chunk sq s (typed m))) else None
   let pow s (m : Zar.t) (e : Zar.t) : Zar.t result option =
     let rw = nwords m * Zar.to_int e in
-    if small rw (rw / 4) then Some (sval (ibig_pow_asis w64 ts tk chunk sq s (typed m) e)) else None
+    if small_pow rw (rw / 4) then Some (sval (ibig_pow_asis w64 ts tk chunk sq s (typed m) e)) else None
   let kmul (which : int) s (la : int) (lb : int) (c : Zar.t) (a : Zar.t) (b : Zar.t) : string option =
     if not (small la lb) then None else
     let cw = words (la + lb) c and aw = words la a and bw = words lb b in
     let f = (match which with
-      | 0 -> rec_gen
-      | 1 -> simple_add_signed_mul w64 chunk rec_gen
-      | 2 -> split_into_chunks w64 (karatsuba_same_len w64 rec_same) rec_gen (nat_of_int lb)
-      | _ -> split_into_chunks w64 (toom3_same_len w64 rec_same) rec_gen (nat_of_int lb)) in
+      | 0 -> add_signed_mul_w w64 d21 ts tk chunk
+      | 1 -> simple_add_signed_mul_w w64 d21 ts tk chunk
+      | 2 -> karatsuba_add_signed_mul_w w64 d21 ts tk chunk
+      | _ -> toom3_add_signed_mul_w w64 d21 ts tk chunk) in
     (match f cw s aw bw with
      | Ok (r, carry) -> Some ("ok " ^ hx (value w64 r) ^ " " ^ hx carry)
      | Panic _ -> Some "panic model"
@@ -75,7 +75,7 @@ module Ringasis = struct
      | OutOfFuel -> Some "outoffuel")
   let ksqr (la : int) (a : Zar.t) : string option =
     if not (small la la) then None else
-    (match Model.sqr w64 ts tk sq (words la a) with
+    (match sqr_w w64 d21 ts tk sq (words la a) with
      | Ok r -> Some ("ok " ^ hx (value w64 r))
      | Panic _ -> Some "panic model"
      | _ -> Some "outoffuel")
@@ -142,6 +142,14 @@ let judge op args got =
       let want = "ok " ^ hx (sqr_spec x) in
       let asis = Ringasis.ksqr (Zar.to_int la) x in
       expect ~extra:(match asis with Some t -> fid t got | None -> "asis=na") want got
+  | "kmem" ->
+      (* scratch memory: verdict = the reserved amount suffices (least amount that runs <= reserved);
+         fidelity = both numbers are the ones of the model (DashuGen.MulMemory formula, Int/RingScratch.v consumption) *)
+      let la = n 0 and lb = n 1 in
+      let want = "ok " ^ hx (kernel_alloc Zar.zero la lb) ^ " " ^ hx (kernel_need Zar.zero la lb) in
+      (match got with
+       | ["ok"; f; k] when Zar.leq (usz k) (usz f) -> pass ~extra:("cls=mem " ^ fid want got) ()
+       | _ -> fail want)
   | "params" ->
       expect (Printf.sprintf "ok %s %s %s %s 40" (hx mul_threshold_simple) (hx mul_threshold_karatsuba) (hx karatsuba_min_len) (hx toom3_min_len)) got
   | _ -> fail ("unknown-op-" ^ op)
